@@ -230,7 +230,7 @@ Ltac unfold_all :=
     validate_MinErrorFlow, validate_kFlowDecompCycles, validate_kLeastAbsErrorsCycles, validate_kMinPathErrorCycles,
     validate_kPathCoverCycles, validate_MinPathCoverCycles, validate_MinFlowDecompCycles,
     mfd_solve, kfd_core, kfdc_core, front_cover, front, front_node, front_edge, front_cover, v_stdag, v_stdigraph, v_ssg_common, v_nodeexp,
-    v_maxflow, v_pathmodel, v_walkmodel, v_walkmodel_k, k_bad, st_of, en_of, no_src, no_snk, VE in *.
+    v_maxflow, v_pathmodel, v_walkmodel, v_walkmodel_k, k_own_bad, k_base_bad, k_bad, st_of, en_of, no_src, no_snk, VE in *.
 Ltac unfold_dom :=
   unfold in_domain_stDAG, in_domain_stDiGraph, in_domain_NodeExpandedDiGraph, in_domain_kFlowDecomp, in_domain_MinFlowDecomp,
     in_domain_kMinPathError, in_domain_kLeastAbsErrors, in_domain_kErrDAG, in_domain_kPathCover, in_domain_MinPathCover,
@@ -274,7 +274,7 @@ Definition ex_graph : input :=
   {| nodes_str := [true; true]; n_edges := 2; acyclic := false; has_selfloop := false; ign_pct := PNone; trust_pct := PNone; has_source := true; has_sink := true;
      origin := OEdge; wtype := TFloat;
      elems := [ {| e_w := WPos; e_ign := false |}; {| e_w := WPos; e_ign := false |} ];
-     conserving := true; k := KInt 2; cons := []; cov := 1%Q; cov_len := None; has_len_attr := false; starts := []; ends := []; ign := []; search_enters := true |}.
+     conserving := true; k := KInt 2; has_superset := false; cons := []; cov := 1%Q; cov_len := None; has_len_attr := false; starts := []; ends := []; ign := []; search_enters := true |}.
 
 (* ================================================================== NodeExpandedDiGraph *)
 Theorem validate_sound_NodeExpandedDiGraph i :
@@ -337,12 +337,12 @@ Lemma wf_node_facts i : origin i = ONode -> cons_wf i = true ->
 Proof. intros O W. apply cons_ok_node in W as [W1 W2]; auto. Qed.
 Lemma k_pos_facts i : k_pos_int i = true -> k_is_int i = true /\ k_le0 i = false.
 Proof.
-  unfold k_pos_int, k_is_int, k_le0. destruct (k i); [|discriminate].
+  unfold k_pos_int, k_is_int, k_le0. destruct (k i); [|discriminate|discriminate].
   intros H. split; [reflexivity|]. apply Z.ltb_lt in H. apply Z.leb_gt. exact H.
 Qed.
 Lemma k_pos_from i : k_is_int i = true -> k_le0 i = false -> k_pos_int i = true.
 Proof.
-  unfold k_pos_int, k_is_int, k_le0. destruct (k i); [|discriminate].
+  unfold k_pos_int, k_is_int, k_le0. destruct (k i); [|discriminate|discriminate].
   intros _ H. apply Z.leb_gt in H. apply Z.ltb_lt. exact H.
 Qed.
 
@@ -426,55 +426,61 @@ Ltac complete_script i :=
 Definition set_cons (i : input) (cs : list constr) (c : Q) : input :=
   {| nodes_str := nodes_str i; n_edges := n_edges i; acyclic := acyclic i; has_selfloop := has_selfloop i; ign_pct := ign_pct i; trust_pct := trust_pct i; has_source := has_source i; has_sink := has_sink i;
      origin := origin i; wtype := wtype i; elems := elems i;
-     conserving := conserving i; k := k i; cons := cs; cov := c; cov_len := cov_len i; has_len_attr := has_len_attr i; starts := starts i; ends := ends i; ign := ign i;
+     conserving := conserving i; k := k i; has_superset := has_superset i; cons := cs; cov := c; cov_len := cov_len i; has_len_attr := has_len_attr i; starts := starts i; ends := ends i; ign := ign i;
      search_enters := search_enters i |}.
 Definition set_k (i : input) (kk : ktag) : input :=
   {| nodes_str := nodes_str i; n_edges := n_edges i; acyclic := acyclic i; has_selfloop := has_selfloop i; ign_pct := ign_pct i; trust_pct := trust_pct i; has_source := has_source i; has_sink := has_sink i;
      origin := origin i; wtype := wtype i; elems := elems i;
-     conserving := conserving i; k := kk; cons := cons i; cov := cov i; cov_len := cov_len i; has_len_attr := has_len_attr i; starts := starts i; ends := ends i; ign := ign i;
+     conserving := conserving i; k := kk; has_superset := has_superset i; cons := cons i; cov := cov i; cov_len := cov_len i; has_len_attr := has_len_attr i; starts := starts i; ends := ends i; ign := ign i;
      search_enters := search_enters i |}.
 Definition set_origin (i : input) (o : origin_tag) (w : wtype_tag) : input :=
   {| nodes_str := nodes_str i; n_edges := n_edges i; acyclic := acyclic i; has_selfloop := has_selfloop i; ign_pct := ign_pct i; trust_pct := trust_pct i; has_source := has_source i; has_sink := has_sink i;
      origin := o; wtype := w; elems := elems i;
-     conserving := conserving i; k := k i; cons := cons i; cov := cov i; cov_len := cov_len i; has_len_attr := has_len_attr i; starts := starts i; ends := ends i; ign := ign i;
+     conserving := conserving i; k := k i; has_superset := has_superset i; cons := cons i; cov := cov i; cov_len := cov_len i; has_len_attr := has_len_attr i; starts := starts i; ends := ends i; ign := ign i;
      search_enters := search_enters i |}.
 Definition set_flags (i : input) (acy cons_ se : bool) (ns : list bool) : input :=
   {| nodes_str := ns; n_edges := n_edges i; acyclic := acy; has_selfloop := has_selfloop i; ign_pct := ign_pct i; trust_pct := trust_pct i; has_source := has_source i; has_sink := has_sink i;
      origin := origin i; wtype := wtype i; elems := elems i;
-     conserving := cons_; k := k i; cons := cons i; cov := cov i; cov_len := cov_len i; has_len_attr := has_len_attr i; starts := starts i; ends := ends i; ign := ign i;
+     conserving := cons_; k := k i; has_superset := has_superset i; cons := cons i; cov := cov i; cov_len := cov_len i; has_len_attr := has_len_attr i; starts := starts i; ends := ends i; ign := ign i;
      search_enters := se |}.
 Definition set_elems (i : input) (es : list elem) (se : bool) : input :=
   {| nodes_str := nodes_str i; n_edges := n_edges i; acyclic := acyclic i; has_selfloop := has_selfloop i; ign_pct := ign_pct i; trust_pct := trust_pct i; has_source := has_source i; has_sink := has_sink i;
      origin := origin i; wtype := wtype i; elems := es;
-     conserving := conserving i; k := k i; cons := cons i; cov := cov i; cov_len := cov_len i; has_len_attr := has_len_attr i; starts := starts i; ends := ends i; ign := ign i;
+     conserving := conserving i; k := k i; has_superset := has_superset i; cons := cons i; cov := cov i; cov_len := cov_len i; has_len_attr := has_len_attr i; starts := starts i; ends := ends i; ign := ign i;
      search_enters := se |}.
 Definition set_starts (i : input) (hs : bool) (sts : list bool) : input :=
   {| nodes_str := nodes_str i; n_edges := n_edges i; acyclic := acyclic i; has_selfloop := has_selfloop i; ign_pct := ign_pct i; trust_pct := trust_pct i; has_source := hs; has_sink := has_sink i;
      origin := origin i; wtype := wtype i; elems := elems i;
-     conserving := conserving i; k := k i; cons := cons i; cov := cov i; cov_len := cov_len i; has_len_attr := has_len_attr i; starts := sts; ends := ends i; ign := ign i;
+     conserving := conserving i; k := k i; has_superset := has_superset i; cons := cons i; cov := cov i; cov_len := cov_len i; has_len_attr := has_len_attr i; starts := sts; ends := ends i; ign := ign i;
      search_enters := search_enters i |}.
 Definition set_covlen (i : input) (l : option Q) (a : bool) : input :=
   {| nodes_str := nodes_str i; n_edges := n_edges i; acyclic := acyclic i; has_selfloop := has_selfloop i; ign_pct := ign_pct i; trust_pct := trust_pct i; has_source := has_source i; has_sink := has_sink i;
      origin := origin i; wtype := wtype i; elems := elems i;
-     conserving := conserving i; k := k i; cons := cons i; cov := cov i; cov_len := l; has_len_attr := a; starts := starts i;
+     conserving := conserving i; k := k i; has_superset := has_superset i; cons := cons i; cov := cov i; cov_len := l; has_len_attr := a; starts := starts i;
      ends := ends i; ign := ign i; search_enters := search_enters i |}.
 Definition set_loop_pct (i : input) (sl : bool) (ip tp : pct) : input :=
   {| nodes_str := nodes_str i; n_edges := n_edges i; acyclic := acyclic i; has_selfloop := sl; ign_pct := ip; trust_pct := tp;
      has_source := has_source i; has_sink := has_sink i; origin := origin i; wtype := wtype i; elems := elems i;
-     conserving := conserving i; k := k i; cons := cons i; cov := cov i; cov_len := cov_len i; has_len_attr := has_len_attr i;
+     conserving := conserving i; k := k i; has_superset := has_superset i; cons := cons i; cov := cov i; cov_len := cov_len i; has_len_attr := has_len_attr i;
      starts := starts i; ends := ends i; ign := ign i; search_enters := search_enters i |}.
+Definition set_superset (i : input) (b : bool) : input :=
+  {| nodes_str := nodes_str i; n_edges := n_edges i; acyclic := acyclic i; has_selfloop := has_selfloop i; ign_pct := ign_pct i;
+     trust_pct := trust_pct i; has_source := has_source i; has_sink := has_sink i; origin := origin i; wtype := wtype i;
+     elems := elems i; conserving := conserving i; k := k i; has_superset := b; cons := cons i; cov := cov i; cov_len := cov_len i;
+     has_len_attr := has_len_attr i; starts := starts i; ends := ends i; ign := ign i; search_enters := search_enters i |}.
 Definition ex_dag : input := set_flags ex_graph true true true [true; true].
 Definition neg_elem := {| e_w := WNeg; e_ign := false |}.
 Definition ign_elem := {| e_w := WPos; e_ign := true |}.
 Definition pair_then_int := [ {| c_is_list := true; c_items := [ {| it_kind := IPair; it_in_graph := true |}; {| it_kind := IInt; it_in_graph := false |} ] |} ].
 
 (* ================================================================== kFlowDecomp *)
-Definition deviates_kFlowDecomp (i : input) := all_ignored i.
+(* OPEN: every weighted element ignored (#24); a bool k together with given weights *)
+Definition deviates_kFlowDecomp (i : input) := all_ignored i || (has_superset i && k_is_true i).
 Theorem validate_sound_kFlowDecomp i : validate_kFlowDecomp i = RaiseValueError -> in_domain_kFlowDecomp i = false.
 Proof. intros H. destruct (in_domain_kFlowDecomp i) eqn:D; [exfalso|reflexivity]. sound_script i. Qed.
 Theorem validate_complete_kFlowDecomp i :
   in_domain_kFlowDecomp i = false -> deviates_kFlowDecomp i = false -> validate_kFlowDecomp i = RaiseValueError.
-Proof. intros D V. unfold deviates_kFlowDecomp in V. complete_script i. Qed.
+Proof. intros D V. unfold deviates_kFlowDecomp in V. split_dev V. complete_script i. Qed.
 Theorem accepts_domain_kFlowDecomp i :
   in_domain_kFlowDecomp i = true -> has_live i = true -> validate_kFlowDecomp i = Accept.
 Proof. intros D L. rewrite has_live_all_ignored in L. apply negb_true_iff in L. accept_script i. Qed.
@@ -511,12 +517,13 @@ Proof.
 Qed.
 
 (* ================================================================== kMinPathError / kLeastAbsErrors *)
-Definition deviates_kErrDAG (i : input) := all_ignored i.
+(* OPEN: every weighted element ignored (#24); with given weights the caller's k is never looked at *)
+Definition deviates_kErrDAG (i : input) := all_ignored i || (has_superset i && k_bad i).
 Theorem validate_sound_kErrDAG i : validate_kErrDAG i = RaiseValueError -> in_domain_kErrDAG i = false.
 Proof. intros H. destruct (in_domain_kErrDAG i) eqn:D; [exfalso|reflexivity]. sound_script i. Qed.
 Theorem validate_complete_kErrDAG i :
   in_domain_kErrDAG i = false -> deviates_kErrDAG i = false -> validate_kErrDAG i = RaiseValueError.
-Proof. intros D V. unfold deviates_kErrDAG in V. complete_script i. Qed.
+Proof. intros D V. unfold deviates_kErrDAG in V. split_dev V. unfold k_bad in *. complete_script i. Qed.
 Theorem accepts_domain_kErrDAG i :
   in_domain_kErrDAG i = true -> has_live i = true -> validate_kErrDAG i = Accept.
 Proof. intros D L. rewrite has_live_all_ignored in L. apply negb_true_iff in L. accept_script i. Qed.
